@@ -43,7 +43,7 @@ pub struct SSummary {
 }
 
 pub fn witness(s: &SSummary) {
-    cover!(s.ended && s.yielded >= 1, "stream ended after yielding at least one item");
+    cover!(s.yielded >= 1, "yielded at least one item");
     cover!(!s.ended && s.polls == s.rounds, "stream not ended after all rounds");
 }
 
@@ -221,6 +221,7 @@ pub fn run_stream<C: StrCase>(rounds: usize, sym_drop: bool, favoured: usize) ->
         let tracks = matches!(C::FAM, SFam::Merge | SFam::Zip);
         w.c16 = cfg!(feature = "std") && tracks;
         w.sequential = matches!(C::FAM, SFam::Chain | SFam::WaitUntil);
+        w.seq_is_chain = C::FAM == SFam::Chain;
         if favoured < M {
             w.always[favoured] = true;
         }
@@ -674,6 +675,12 @@ sproof!(chain_arr2_k1_r4, 7, ArrChain<2, 1>, 4);
 sproof!(chain_tup2_k1_r4, 7, Tup2Chain<1>, 4);
 sproof!(chain_ext2_k1_r4, 7, ExtChain<1>, 4);
 sproof!(zip_ext2_k2_r5, 7, ExtZip<2>, 5);
+sproof!(chain_arr3_k1_r3, 7, ArrChain<3, 1>, 3);
+sproof!(chain_tup3_k1_r3, 7, Tup3Chain<1>, 3);
+sproof!(zip_arr3_k1_r3, 7, ArrZip<3, 1>, 3);
+sproof!(zip_tup3_k1_r3, 7, Tup3Zip<1>, 3);
+sproof!(merge_arr3_k1_r4, 7, ArrMerge<3, 1>, 4);
+sproof!(merge_tup3_k1_r4, 7, Tup3Merge<1>, 4);
 sproof!(chain_arr2_k2_r6, 8, ArrChain<2, 2>, 6);
 sproof!(chain_tup2_k2_r6, 8, Tup2Chain<2>, 6);
 sproof!(chain_arr2_k2_r4_drop, 7, ArrChain<2, 2>, 4, drop);
@@ -714,6 +721,10 @@ mod vec_proofs {
     sproof!(zip_vec2_k2_r4_drop, 7, VecZip<2, 2>, 4, drop);
     sproof!(chain_vec2_k2_r6, 8, VecChain<2, 2>, 6);
     sproof!(chain_vec2_k1_r4, 7, VecChain<2, 1>, 4);
+    sproof!(chain_vec3_k1_r3, 7, VecChain<3, 1>, 3);
+    sproof!(merge_vec3_k1_r3, 7, VecMerge<3, 1>, 3);
+    sproof!(zip_vec2_k1_r3, 7, VecZip<2, 1>, 3);
     sproof!(chain_vec0_r1, 7, VecChain<0, 1>, 1, empty);
     fair_proof!(fair_merge_vec2_r5, 7, VecMerge<2, 6>, 5, 2);
+    fair_proof!(fair_merge_vec3_r7, 9, VecMerge<3, 7>, 7, 3);
 }
